@@ -6,8 +6,50 @@ from sqlparse import lexer, tokens as T
 import props.C02 as C02
 
 RULE = 'inputs as C02; every statement, every node, every character offset, every child index; non-trivial = distinct input with at least one group node'
-ASSUMPTIONS = C02.ASSUMPTIONS + ['parent pointers, identity and cached values are properties of the real objects: checked by the oracle, the pure model has no pointers']
-PARTIAL = ['bookkeeping clause (parent, occurs once, cached value) is checked on the real objects only', 'only */operator tokens are re-typed: oracle only (the theorem allows any token to be re-typed to Operator)']
+ASSUMPTIONS = C02.ASSUMPTIONS + ['heap model of TokenList.__init__/group_tokens tied by S-HEAP (random call scripts on real objects); that grouping mutates the tree only through group_tokens is a syntactic check of grouping.py on every run']
+PARTIAL = ['bookkeeping clause: a theorem for every history of group_tokens calls on the heap model (SqlProps/C03 (d)); that the 25 passes issue exactly such calls is the confinement check + S-TREE, and the result is also checked on the real objects',
+           'only */operator tokens are re-typed: oracle only (the theorem allows any token to be re-typed to Operator)']
+
+
+def confinement(ctx):
+    """grouping.py may change the tree only through TokenList.group_tokens (and the one `ttype = T.Operator` re-typing): the heap theorem
+    speaks about histories of group_tokens calls, so any other mutation site would be outside it"""
+    import ast, inspect
+    from sqlparse.engine import grouping
+    tree = ast.parse(inspect.getsource(grouping))
+    bad = []
+    MUT_ATTRS = {'tokens', 'parent', 'value', 'normalized', 'is_group', 'is_keyword', 'is_whitespace', 'is_newline'}
+    MUT_CALLS = {'insert_before', 'insert_after', 'append', 'extend', 'insert', 'remove', 'pop', 'clear', 'sort', 'reverse', 'setattr', '__setattr__'}
+    for node in ast.walk(tree):
+        targets = []
+        if isinstance(node, ast.Assign):
+            targets = node.targets
+        elif isinstance(node, (ast.AugAssign, ast.AnnAssign)):
+            targets = [node.target]
+        elif isinstance(node, ast.Delete):
+            targets = node.targets
+        for t in targets:
+            for sub in ast.walk(t):
+                if isinstance(sub, ast.Attribute) and sub.attr in MUT_ATTRS:
+                    bad.append('line %d: writes .%s' % (node.lineno, sub.attr))
+                if isinstance(sub, ast.Attribute) and sub.attr == 'ttype':
+                    ok = isinstance(node, ast.Assign) and isinstance(node.value, ast.Attribute) and node.value.attr == 'Operator'
+                    if not ok:
+                        bad.append('line %d: re-types a token to something other than T.Operator' % node.lineno)
+                if isinstance(sub, ast.Subscript) and isinstance(t, ast.Subscript) and sub is t:
+                    bad.append('line %d: item assignment/deletion on %s' % (node.lineno, ast.unparse(t.value)))
+        if isinstance(node, ast.Call):
+            f = node.func
+            name = f.attr if isinstance(f, ast.Attribute) else f.id if isinstance(f, ast.Name) else None
+            if name in MUT_CALLS:
+                recv = ast.unparse(f.value) if isinstance(f, ast.Attribute) else ''
+                # list bookkeeping of the passes themselves (`opens`, local lists) is not the tree
+                if name in ('append', 'pop', 'extend', 'insert', 'remove', 'clear') and recv in ('opens',):
+                    continue
+                bad.append('line %d: calls %s.%s' % (node.lineno, recv, name))
+    ctx.meta['confinement'] = {'file': 'sqlparse/engine/grouping.py', 'mutation_sites_outside_group_tokens': bad}
+    if bad:
+        ctx.broken.append(('confinement:grouping.py', '; '.join(bad[:5])))
 
 
 def oracle(ctx, s):
@@ -103,11 +145,20 @@ def run(ctx):
         streams.s_tree(ctx, ins[: ctx.n(2000, 30000)])
         if hasattr(streams, 's_acc'):
             streams.s_acc(ctx, ins[: ctx.n(400, 6000)])
+        streams.s_heap(ctx, ctx.n(3000, 60000))
+    confinement(ctx)
+    if not ctx.model.available:
+        pass
     else:
         ctx.notes.append('model driver unavailable: correspondence streams skipped')
 
 
 def replay(ctx, payload):
     n0 = len(ctx.failures)
+    if isinstance(payload.get('input'), str) and payload['input'].startswith('heap '):
+        io, problems = streams.heap_impl(payload['input'])
+        if problems:
+            ctx.fail('bookkeeping broken after a script of group_tokens calls on real objects', payload['input'], observed=problems[:3], required='well-formed')
+        return len(ctx.failures) > n0
     oracle(ctx, payload['input'])
     return len(ctx.failures) > n0
